@@ -306,6 +306,13 @@ class C02(L1Prop):
             for ci, par in enumerate(("nil", "fresh", "ver:1:0", "latest:2")):
                 ops = pre + ["dumpall", f"http POST av hyph={par} hyph=3 history b:55,{ci},{k % 250}", "dumpall"]
                 out.append(Case(f"c02-h{k}-new{ci}", ops, {"http": True}, mode="http"))
+            # an upload that breaks off part-way (nothing may be stored for it) followed by complete
+            # uploads handled by the same worker: what is stored is exactly what THAT request submitted
+            for ci, (who, brk) in enumerate(((1, f"brk:{4 + k % 9}"), (2, f"brk:{3 + k % 5},{2 + k % 11}"), (3, "brk:7"))):
+                ops = pre + ["dumpall", f"http POST av hyph=latest:{who} hyph={who} history {brk}", "dumpall",
+                             f"http POST av hyph=latest:{c} hyph={c} history b:66,{ci}", "dumpall",
+                             f"http POST av hyph=latest:{o} hyph={o} history chunks:2,{1 + ci}", "dumpall"]
+                out.append(Case(f"c02-h{k}-brk{ci}", ops, {"http": True}, mode="http"))
             # retransmissions of the i-th accepted request of client 1
             for i in range(n):
                 par = f"ver:1:{i - 1}" if i > 0 else None
